@@ -153,6 +153,8 @@ func barrierWF(c *Case) *WF {
 var profC07 = Profile{
 	MaxProcs: 4, MaxItems: 5, Bufsizes: []int{0, 1, 2}, MaxSlots: 6,
 	MultiOut: true, FanIn: true, FanOut: true, Cores: true, TwoSources: true, Zip: true, Sinkless: true,
+	// (Go-function tasks take and return their slots on a code path of their own)
+	Custom: true,
 }
 
 // releaseWaveWF: a wide task (k-1 of k slots) is known to be executing - it
@@ -270,9 +272,25 @@ func init() {
 						n.Cores = 1 + c.Tape.Choose(simrt.StGen, w.MaxTasks, 0)
 					}
 				}
+				nested := false
+				if c.Tape.Choose(simrt.StGen, 4, 0) == 1 {
+					// a Go-function task runs a nested workflow (with slots of its own) while
+					// it holds slots of the outer one: the two slot pools must not interfere
+					for i := range w.Nodes {
+						if n := &w.Nodes[i]; n.Kind == KProc && n.Custom != 0 && len(n.Ins) > 0 && !n.Ins[0].Join {
+							n.Nest = 1 + c.Tape.Choose(simrt.StGen, 2, 0)
+							nested = true
+							c.Probe("nested-workflow")
+							break
+						}
+					}
+				}
 				c.Sample = "contention: " + sample(w)
 				ex := Eval(w)
 				opts := IncOpts{KillAt: -1, Strategy: strategyOf(c.Tape), Trace: c.Trace, OnStep: slotInvariant(w, c)}
+				if nested {
+					opts.OnStep = nil // (the invariant counts one pool; here there are two)
+				}
 				if c.Tape.Choose(simrt.StFault, 6, 0) == 1 {
 					// while tasks wait for slots, a declared output of one of them appears
 					// from outside (the user copies a finished result in: reference bytes).
@@ -305,6 +323,9 @@ func init() {
 						return Viol("slot-deadlock", deadlockSig(inc), "tasks waiting for slots block each other forever: %s", endDesc(inc))
 					}
 					return Skipped(Viol("deadlock", "", "%s", endDesc(inc)))
+				}
+				if nested {
+					return OK() // (the nested runs' files are not part of the reference)
 				}
 				if v := flowOracle(inc, ex); v.Status == "violation" {
 					return Skipped(v)
